@@ -21,8 +21,8 @@ TIERS = {
     # case_cap: cases per specialisation; root_cap: scalar tuples per specialisation; ext: largest index the
     # definition may touch in an input / output; fills: guard and filler byte patterns (nuisance dimension)
     "quick": dict(case_cap=30000, root_cap=2000, in_ext=16, out_ext=48, fills=(0x00, 0xFF), raw_cap=60000),
-    "thorough": dict(case_cap=40000, root_cap=3000, in_ext=24, out_ext=64, fills=(0x00, 0xFF, 0xA5),
-                     raw_cap=150000),
+    "thorough": dict(case_cap=300000, root_cap=6000, in_ext=24, out_ext=64, fills=(0x00, 0xFF, 0xA5),
+                     raw_cap=400000),
 }
 
 # class B kernels whose definition cannot execute (NameError / signature mismatch): they additionally get the
@@ -699,6 +699,8 @@ class C13(runner.Check):
                 st.nontrivial += 1
             label = "error" if errored else ("ok" if wrote else "ok-nothing-written")
             for fill in fills:
+                # every fill pattern is executed even after a mismatch, so that case numbers (crash attribution)
+                # do not depend on what was observed
                 counter[0] += 1
                 if dry_until is not None:
                     if counter[0] == dry_until:
@@ -716,7 +718,7 @@ class C13(runner.Check):
                                      % (sig, "raises ValueError(%r)" % run.message if errored else "succeeds",
                                         describe(case)), case, kernel=k["name"], spec=spec["name"], failure="crash")
                         label = "MISMATCH"
-                        break
+                        continue
                 pool.mark(counter[0])
                 err = cfn(*call.cargs)
                 st.evaluations += 1
@@ -728,7 +730,6 @@ class C13(runner.Check):
                         st.violation("kernel-mismatch", "%s: %s\n  %s" % (failure, text, describe(case)), case,
                                      kernel=k["name"], spec=spec["name"], failure=failure)
                     label = "MISMATCH"
-                    break
             st.outcome(label)
             if label != "MISMATCH" and len(st.samples) < 1 and wrote and st.states % 7 == 3:
                 st.sample({"case": describe(case_dict(spec, scalars, rs, fills[0], errored)), "agrees": True})
